@@ -18,6 +18,10 @@ P["C01"] = dict(
         "R-DISPATCH: Op::apply maps (inverted, direction) to the fwd/inv slot by the documented truth table; "
         "handle_inversion toggles iff requested and invertible, else Err",
         "R-GATHER-SCATTER: the inverse of adapt/axisswap is the exact reverse element mapping of the forward",
+        "R-ITER-DEAD: no fixed-point / Newton iteration of an inverse stops before its first update",
+        "R-PAIRING: every invertible operator registers distinct fwd/inv functions; one-way operators register none",
+        "R-CLONE-AGREE: constants recomputed by both the forward and the inverse function are the same expression",
+        "R-GRID-SIGN: grid corrections are applied with opposite signs forward and inverse",
         "R-SIGN-SLICE: every laea aspect (north/south polar) is reachable",
     ],
     not_decided=["numerical round-trip accuracy of any operator", "domain limits", "grid based shifts"],
@@ -86,7 +90,11 @@ P["C07"] = dict(
     claimed=True,
     technique="static analysis: loop-carried-state and element-preservation dataflow on the Helmert/Molodensky loops",
     decides=["R-LOOP-CARRIED on helmert_common: parameters are evaluated at each tuple's own epoch",
-             "R-ELEMENT-PRESERVE: helmert and molodensky never change the fourth coordinate"],
+             "R-ELEMENT-PRESERVE: helmert and molodensky never change the fourth coordinate",
+             "R-ONCE: fixing t_obs advances T, R (per axis) and S (once) by their rates exactly once",
+             "R-TRANSPOSE: the position_vector and coordinate_frame matrices are element-wise transposes",
+             "R-ALIAS-WIRING: element i of T/DT/R/DR comes from the i'th scalar alias or the i'th list element; "
+             "S, DS from (scale|s), (scale_trend|ds)"],
     not_decided=["similarity / rotation-matrix algebra", "molodensky accuracy", "second-order inverse accuracy"],
     level="Decides the epoch-independence and untouched-time clauses; the algebraic clauses are not decided.",
     design_ref="DESIGN.md section 3, C07",
